@@ -152,6 +152,10 @@ def run(run):
             run.guard('activation pairing', activation_pairing, run, F, E)
             run.guard('observers', observers, run, F, E)
             run.guard('deactivation resets', deactivation_resets, run, F, E, 'C01.b')
+            # "delivered only to the state that is currently active": the dispatch primitive the interpretation treats as exact is a correct
+            # binary search step in every dispatcher of every callback kind (shares C14.b)
+            from rules import dispatch_rules as _dr
+            run.guard('dispatchers', _dr.check_dispatchers, run, F, E, 'C01.h')
             # copying / moving a machine is not an activity change of the machine copied from (its registry is not touched)
             from lint import records as _rec
             run.guard('source untouched', _rec.source_untouched, run, 'C01.g', F, E)
@@ -172,6 +176,7 @@ def run(run):
     run.floor('C01.d', 20)
     run.floor('C01.e', 8)
     run.floor('C01.g', 20)
+    run.floor('C01.h', 100)
     run.explanation = (
         'Typestate proof by induction over API calls, computed by a forward abstract interpretation (must-equalities between '
         'slots + constants + observer automaton) of every entry point that can reach a dispatcher, with the dispatchers as '
